@@ -277,7 +277,7 @@ def evolve(pkg: M.Package, rng: Rng, n: int, kinds) -> tuple:
 RECORD_EDITS = ["add_optional_field", "remove_optional_field", "reorder_fields", "add_field", "remove_field", "widen_field", "make_optional", "widen_vector_field", "make_required"]
 
 
-def with_versions(pkg: M.Package, rng: Rng, n_versions: int, partial: bool, must_edit=(), order="oldest_first", p_new_protocol=0.0) -> M.Package:
+def with_versions(pkg: M.Package, rng: Rng, n_versions: int, partial: bool, must_edit=(), order="oldest_first", p_new_protocol=0.0, layout="siblings") -> M.Package:
     """Treat pkg as the oldest version; evolve it n_versions times; the newest package lists all
     its predecessors under `versions:`.  Returns the newest package.
     must_edit: names of records that each get at least one record edit in every evolution step."""
@@ -308,6 +308,12 @@ def with_versions(pkg: M.Package, rng: Rng, n_versions: int, partial: bool, must
     for i, old in enumerate(chain[:-1]):
         old = copy.deepcopy(old)
         old.dirname = "%s_v%d" % (pkg.dirname, i)
+        if layout == "archive":
+            # every version is a snapshot of the whole tree: its own copy of the package *and of the packages it imports*,
+            # so the same relative import path means a different directory in every version
+            old.dirname = "archive/v%d/%s" % (i, pkg.dirname)
+            for q in old.all_packages()[:-1]:
+                q.dirname = "archive/v%d/%s" % (i, q.dirname)
         old.versions = []
         old.targets = {}
         newest.versions.append(("v%d" % i, old))
@@ -363,6 +369,27 @@ def invalidate(files: dict, pkgdir: str, rng: Rng, kind: str) -> tuple:
         p = rng.choice(mfs)
         files[p] = files[p] + "\nStreamy%d: !record\n  fields:\n    s: !stream {items: int}\n" % rng.randint(1, 99)
         return files, "stream outside protocol step in " + p
+    if kind == "unqualified_import_ref" and mfs:
+        # the namespace qualifier forgotten on a type of another package - preferably a name that several other packages define
+        import re
+        mine, theirs = set(), {}
+        for q, text in files.items():
+            if not (q.endswith(".yml") or q.endswith(".yaml")) or q.endswith("/_package.yml"):
+                continue
+            names = set(re.findall(r"^([A-Z][A-Za-z0-9]*)(?:<[^>]*>)?:", text, re.M))
+            if q.rsplit("/", 1)[0] == pkgdir:
+                mine |= names
+            else:
+                for nme in names:
+                    theirs.setdefault(nme, set()).add(q.rsplit("/", 1)[0])
+        cands = sorted(n for n in theirs if n not in mine)
+        if not cands:
+            return None, None
+        shared = [n for n in cands if len(theirs[n]) >= 2]
+        name = rng.choice(shared) if shared and rng.chance(0.8) else rng.choice(cands)
+        p = rng.choice(mfs)
+        files[p] = files[p] + "\nUnq%d: !record\n  fields:\n    ref: %s\n" % (rng.randint(1, 99), name)
+        return files, "unqualified reference to %s (defined in %d other package directories) in %s" % (name, len(theirs[name]), p)
     if kind == "unknown_manifest_key" and man in files:
         files[man] = files[man] + "bogusKey: 1\n"
         return files, "unknown key in " + man
